@@ -10,7 +10,7 @@ from ..common import Case, HELD, INCONCLUSIVE, VIOLATED
 from ..gen import CidFactory, rng
 from ..rig import Rig
 from . import base
-from .hist_base import set_pack_limit
+from .hist_base import PACKS, set_pack_limit
 
 PROP = "C20"
 LEVEL = "exploration"
@@ -376,12 +376,21 @@ def run_sched_shard(spec):
         hashes = set()
         witness = None
         checks = 0
-        for i in range(spec.get("nsched", 6)):
+        # one script in three: the folder qualifies for packing as soon as the IMAP side has removed something
+        # (threshold lowered), so the renumbering of the files falls among the POP3 reads
+        packing = k % 3 == 2
+        if packing:
+            # low-numbered messages go, so the survivors are renumbered by the pack; the POP3 session keeps reading them
+            imap_cmds = [list(rnd.choice([["UID EXPUNGE 2"], ["UID MOVE 1 other"], ["UID STORE 1 +FLAGS (\\Deleted)", "UID EXPUNGE 1"], ["UID EXPUNGE 2", "NOOP"]]))]
+            pop_cmds = [rnd.choice([f"RETR {n}", f"TOP {n} 1", f"RETR {n}", f"LIST {n}"]) for n in [rnd.choice([3, 5, 5, 4]) for _ in range(8)]]
+            counts["sched_scripts_with_packing"] += 1
+        for i in range(spec.get("nsched", 6) * (3 if packing else 1)):
             d = tempfile.mkdtemp(prefix="m", dir=scratch)
             holder = {}
 
             async def main(loop, d=d):
                 holder["loop"] = loop
+                set_pack_limit(3 if packing else 100)
                 rig = await Rig(d + "/mail", loop).start()
                 problems = []
                 try:
@@ -412,6 +421,12 @@ def run_sched_shard(spec):
 
                     async def pop():
                         for c in pop_cmds:
+                            if packing:
+                                # idle moments: the mailbox's management task may decide to pack the folder now; the
+                                # think time after them ends at a point the scheduler picks among the server's completions
+                                if loop.rng.random() < 0.15:
+                                    await asyncio.sleep(loop.rng.choice([3, 7]))
+                                await loop.run_in_executor(None, int)
                             await pace()
                             out.append((c, await p.cmd(c)))
 
@@ -429,13 +444,30 @@ def run_sched_shard(spec):
                         if t.exception() is not None:
                             raise t.exception()
                     n_checks = 0
+                    # which messages of the snapshot are still in INBOX when everything is over: for those the session
+                    # can not have been told "not available" at any moment
+                    still = set()
+                    try:
+                        ob = rig.session("OB")
+                        await ob.cmd("EXAMINE INBOX")
+                        rfo = await ob.cmd("FETCH 1:* (BODY.PEEK[HEADER.FIELDS (X-CID)])")
+                        for _, d_ in rfo.fetches():
+                            m_ = re.search(rb"X-CID:\s*(\S+)", bytes(d_.get("BODY[HEADER.FIELDS (X-CID)]") or b""))
+                            if m_:
+                                still.add(m_.group(1).decode())
+                    except Exception:
+                        still = set()
                     for c, rep in out:
                         word, n = c.split()[0], int(c.split()[1])
                         if rep is None:
                             problems.append(("pop3-no-reply", f"{c}: connection closed={p.writer.closed}; log={[x[2][:160] for x in rig.log_records[-2:]]}"))
                             break
                         if not rep.ok:
-                            continue  # "-ERR message not available": the snapshot entry is gone, which is said, not faked
+                            # "-ERR message not available": the snapshot entry is gone, which is said, not faked -- unless it is not gone
+                            if word in ("RETR", "TOP") and snap[n - 1] in still:
+                                n_checks += 1
+                                problems.append(("retr-refused-for-present-message", f"{c}: {rep.line!r} although message {n} ({snap[n - 1]}) is in INBOX to the end"))
+                            continue
                         n_checks += 1
                         if word in ("RETR", "TOP"):
                             m = re.search(rb"X-CID:\s*(\S+)", rep.body or b"")
@@ -448,11 +480,13 @@ def run_sched_shard(spec):
                                 problems.append(("uidl-changed", f"{c}: was {uids[n]}, now {parts[2]}"))
                     return problems, n_checks
                 finally:
+                    set_pack_limit(100)
                     try:
                         await rig.stop()
                     except Exception:
                         pass
 
+            packs0 = PACKS["n"]
             try:
                 strategy = fifo_all_strategy if i == 0 else rnd.choice([random_strategy, random_strategy, one_at_a_time_strategy])
                 sd = rnd.randrange(1 << 30)
@@ -467,6 +501,7 @@ def run_sched_shard(spec):
                 shutil.rmtree(d, ignore_errors=True)
             counts["schedules"] += 1
             counts["sched_snapshot_checks"] += n_checks
+            counts["sched_packs"] += PACKS["n"] - packs0
             checks += n_checks
             hashes.add(common.h(holder["loop"].trace))
             if problems and witness is None:
